@@ -50,12 +50,17 @@ ASSUMPTIONS = [
     "C09_handlers_never_block: pageout_one is the only blocking primitive of the store and every section under it is straight-line code, so the only way "
     "to block for ever is a thread taking it twice; the events of Shm/ManagerLocks.v are compared with those seen on Manager.pageout_one where that attribute "
     "is a plain lock (informative: histogram lock-events:*), the absence of hangs itself is decided on the implementation by the watchdog",
+    "the last clause (eventually granted, incl. failed disk jobs) is refuted by C09_failed_pageout_under_stale_reader_refuted (open finding "
+    "failed-pageout-under-stale-reader-stuck): the oracle gives that signature only to a dataset left in paging_out after the callback of ITS failed "
+    "page-out ran while a reader held it; any other dataset left in paging_out without a pending job is `stuck-in-paging-out`, any other wait-for-ever "
+    "`eviction-stuck` / `hang-*`",
     "C09_reader_table_exact speaks of ids as the store sees them; clients are assumed to close with the id they were given (malformed closes are generated "
     "too, the oracle then stops tracking that dataset)",
 ]
 
 SIG_READD = "readd-during-pageout"
 SIG_STALE_WRITER = "stale-writer-readable"
+SIG_STUCK = "failed-pageout-under-stale-reader-stuck"
 
 
 class Watch:
@@ -70,6 +75,7 @@ class Watch:
                       "fresh_reader_protected": 0, "roundtrips": 0, "three_overlapping_readers": 0, "reader_id_shared": 0,
                       "closed_out_of_order": 0, "pageout_failed_segment_present": 0, "pagein_failed": 0}
         self.roundtrip = set()
+        self.failed_under_reader = {}   # key -> (Dataset object, op index, consequences): its page-out FAILED while a reader held it
 
     def flag(self, d, sig, what, i, op):
         if S.readd_evidence(d):
@@ -97,6 +103,23 @@ class Watch:
                     self.stats["pageout_failed_segment_present"] = 1    # the page file could not be written: the callback has to purge
                 elif j.kind == "in":
                     self.stats["pagein_failed"] = 1
+        if k == "cb" and ob[1]:
+            j = d.board.jobs[op[1]]
+            key = d.key_for(j.shmid)
+            g = self.gen.get(key)
+            obj = d.job_obj.get(op[1])
+            if j.kind == "out" and j.ok is False and obj is not None and m.datasets.get(key) is obj and g is not None and g["readers"]:
+                # the mechanism of the finding failed-pageout-under-stale-reader-stuck, and only this: the callback of a FAILED page-out
+                # ran for a dataset that is still registered and that a reader (necessarily stale) still holds
+                self.failed_under_reader[key] = (obj, i, {"get-answered-wait": 0, "reader-close-refused": 0, "purge-without-effect": 0})
+        fu = self.failed_under_reader.get(op[1]) if len(op) > 1 and isinstance(op[1], str) else None
+        if fu is not None and m.datasets.get(op[1]) is fu[0]:
+            if k == "get" and ob[4] == "wait":
+                fu[2]["get-answered-wait"] += 1
+            elif k == "close" and op[2] is not None and ob[1] != "":
+                fu[2]["reader-close-refused"] += 1
+            elif k == "purge":
+                fu[2]["purge-without-effect"] += 1
         # ---- bookkeeping + checks per request
         if k == "add" and ob[2] == "" and ob[1] is not None:
             self.gen[op[1]] = {"size": op[2], "created": op[3], "closed": None, "was_closed": False, "reads": [], "readers": {}, "ids": {}, "delayed": False,
@@ -314,6 +337,23 @@ def evaluate(env, cap, ops, rng=None, with_epilogue=True):
         bad.append((sig, f"a patient client asking for {ep.expect[0]} bytes (free {ep.expect[1]}, evictable {ep.expect[2]}) was answered `wait` "
                          f"{ep.rounds} times with all disk jobs completed in between; lock held: {d.m.pageout_all.locked()}, pageout_count {d.m.pageout_count}, "
                          f"datasets {S.snapshot(d.m)}", len(obs) - 1))
+    if not crash:
+        # at the end of the history no dataset may be left in paging_out without a page-out job that could ever move it on
+        for key, ds in d.m.datasets.items():
+            g = w.gen.get(key)
+            if ds.status.name != "paging_out" or g is None or g["wild"] or d.wild_write:
+                continue
+            if any(j.kind == "out" and j.shmid == ds.shmid and j.phase in ("io", "unlink", "cb") for j in d.board.jobs):
+                continue
+            fu = w.failed_under_reader.get(key)
+            if fu is not None and fu[0] is ds:
+                bad.append((SIG_STUCK, f"op {fu[1]} {ops[fu[1]]}: the page-out of {key} failed while a stale reader held it: its purge was delayed and the dataset is left "
+                            f"in paging_out for ever (no job pending, lock held: {d.m.pageout_all.locked()}): {S.snapshot(d.m).get(key)}, free_space {d.m.free_space} of "
+                            f"{cap}; afterwards in this history: {fu[2]}", fu[1]))
+            else:
+                sig = SIG_READD if S.readd_evidence(d) else "stuck-in-paging-out"
+                bad.append((sig, f"{key} is left in status paging_out with no page-out job pending (nothing will ever move it on, its space is never "
+                            f"returned): {S.snapshot(d.m).get(key)}, free_space {d.m.free_space} of {cap}", len(obs) - 1))
     if crash and crash[0] == "Hang":
         # a blocked call is a failure of its own: nothing is granted any more, whatever else is going on in the history
         kind = ops[crash[2]][0] if crash[2] < len(ops) else "?"
@@ -551,6 +591,60 @@ def fault_history(rng):
     return cap, ops
 
 
+def stuck_history(rng):
+    """a reader that never closes (or closes late) grows older than the staleness window, memory pressure selects its dataset, the page
+    file cannot be written -- then patient clients, the reader's late close, purges and re-allocations try to get on"""
+    cap = rng.choice([4, 6, 8])
+    a = rng.randrange(max(1, cap // 2), cap)
+    t = [rng.choice([1, 40])]
+
+    def tick(big=False):
+        t[0] += (S.STALE + rng.choice([1, 10])) if big else rng.choice([1, 2])
+        return t[0]
+    ops = [["add", "s", a, tick()], ["write", "s", S.payload(rng, a)], ["close", "s", None]]
+    other = rng.random() < 0.5 and cap - a >= 1
+    if other:
+        ops += [["add", "o", cap - a, tick()], ["write", "o", S.payload(rng, cap - a)], ["close", "o", None]]
+    ops.append(["get", "s", tick(), [1]])
+    if rng.random() < 0.3:
+        ops += [["get", "s", tick(), [2]], ["close", "s", 2]]
+    early = rng.random() < 0.15
+    if early:
+        ops.append(["close", "s", 1])                    # closed in time: nothing special may happen
+    tick(big=rng.random() < 0.9)
+    ops.append(["add", "new", rng.randrange(cap - a + 1, cap + 1), tick()])
+    fault = rng.random() < 0.85
+    mid = [["close", "s", 1], ["purge", "s"], ["get", "s", tick(), [3]], ["add", "new", 1, tick()]]
+    ops.append(["io", 0, fault])
+    if rng.random() < 0.3:
+        ops.append(rng.choice(mid))
+    ops.append(["unlink", 0])
+    if rng.random() < 0.3:
+        ops.append(rng.choice(mid))
+    ops.append(["cb", 0])
+    ops.append(["drain"])
+    lab = [10]
+    for _ in range(rng.choice([2, 4, 6])):
+        r = rng.random()
+        lab[0] += 1
+        if r < 0.2:
+            ops.append(["alloc", "new", S.payload(rng, rng.randrange(1, cap + 1)), 3, 0])
+        elif r < 0.4:
+            ops.append(["read", "s", 3, 0])
+        elif r < 0.55:
+            ops.append(["close", "s", 1])
+        elif r < 0.7:
+            ops.append(["purge", "s"])
+        elif r < 0.8:
+            ops.append(["add", "s", a, tick(big=rng.random() < 0.2)])
+        elif r < 0.9:
+            ops.append(["get", "s", tick(), [lab[0]]])
+        else:
+            ops.append(["purge", "new"])
+    ops.append(["drain"])
+    return cap, ops
+
+
 def corpus():
     leak = (4, [["add", "A", 4, 10], ["add", "B", 2, 20], ["add", "B", 1, 21], ["write", "A", "01020304"], ["close", "A", None]])
     roundtrip = (4, [["add", "k1", 2, 1], ["write", "k1", "0102"], ["close", "k1", None], ["add", "k2", 2, 2], ["write", "k2", "0304"], ["close", "k2", None],
@@ -571,7 +665,10 @@ def corpus():
     rewrite = (3, [["alloc", "k1", "0102", 4, 0], ["alloc", "k2", "0304", 4, 0], ["read", "k1", 4, 0], ["purge", "k1"], ["alloc", "k1", "0a0b", 4, 0],
                    ["read", "k2", 4, 0], ["read", "k1", 4, 0]])
     # the reader's segment must survive a purge that lands between the halves of a page-out body of ANOTHER generation
-    return [leak, roundtrip, purge_read, pressure_read, stale_reader, stale_writer, readd, rewrite]
+    # the witness of C09_failed_pageout_under_stale_reader_refuted, followed by a patient client, the reader's late close and a purge
+    stuck = (4, [["add", "a", 3, 1], ["write", "a", "010203"], ["close", "a", None], ["get", "a", 2, [7]], ["add", "b", 3, 10 + S.STALE], ["io", 0, True], ["cb", 0],
+                 ["add", "b", 3, 11 + S.STALE], ["close", "a", 7], ["purge", "a"], ["get", "a", 12 + S.STALE, [8]], ["add", "a", 1, 13 + S.STALE]])
+    return [leak, roundtrip, purge_read, pressure_read, stale_reader, stale_writer, readd, rewrite, stuck]
 
 
 LOCK_HEADER = S.HEADER.replace("Shm.ManagerCheck.", "Shm.ManagerCheck Shm.ManagerLocks.")
@@ -602,7 +699,7 @@ def nontrivial(obs, w):
     return w.stats["gets_after_disk_roundtrip"] > 0 or w.stats["purge_delayed"] > 0 or (w.stats["evictions"] > 0 and w.stats["fresh_reader_protected"] > 0)
 
 
-KNOWN = (SIG_READD, SIG_STALE_WRITER)
+KNOWN = (SIG_READD, SIG_STALE_WRITER, SIG_STUCK)
 
 
 def run(ctx, res):
@@ -638,6 +735,9 @@ def run(ctx, res):
     rng = ctx.sub_rng("faults")
     for _ in range(ctx.n(200, 4000)):
         streams.append(("faults",) + fault_history(rng))
+    rng = ctx.sub_rng("stuck")
+    for _ in range(ctx.n(150, 3000)):
+        streams.append(("stuck",) + stuck_history(rng))
     terms, metas, lock_terms = [], [], []
     erng = ctx.sub_rng("epilogue")
     hangs = 0
@@ -665,7 +765,7 @@ def run(ctx, res):
             res.count(f"epilogue:{ep.verdict}")
             for e in d.events:
                 res.count("event:" + e[0])
-            for sig, what, i in bad[:1]:
+            for sig, what, i in ([b for b in bad if b[0] not in KNOWN] or bad)[:1]:
                 if sig in KNOWN:
                     res.count("known-signature:" + sig)
                     if sig in listed:
@@ -684,7 +784,8 @@ def run(ctx, res):
             else:
                 res.count("not-compared:crashed")
         # the witnesses of the _refuted theorems must still fail on the implementation
-        for name, sig, idx in (("C09_bytes_preserved_refuted", SIG_READD, 6), ("C09_no_read_before_close_refuted", SIG_STALE_WRITER, 5)):
+        for name, sig, idx in (("C09_bytes_preserved_refuted", SIG_READD, 6), ("C09_no_read_before_close_refuted", SIG_STALE_WRITER, 5),
+                               ("C09_failed_pageout_under_stale_reader_refuted", SIG_STUCK, 8)):
             wcap, wops = corpus()[idx]
             d, ops, obs, crash, bad, w, ep = evaluate(env, wcap, wops, erng, with_epilogue=False)
             res.evaluations += 1
@@ -723,11 +824,11 @@ def search(ctx, res):
         rng = ctx.sub_rng("search")
         for i in range(9000):
             yield [reader_history, S.pressure_history, S.gen_history, S.rewrite_history, S.midpurge_history, overlap_history,
-                   fault_history][i % 7](rng)
+                   fault_history, stuck_history][i % 8](rng)
     with S.patched() as env:
         for cap, ops in itertools.chain(first, corpus(), many()):
             d, ops2, obs, crash, bad, w, ep = evaluate(env, cap, ops)
-            bad = [b for b in bad if b[0] not in KNOWN or b[0] in listed]
+            bad = [b for b in bad if not (b[0] in KNOWN and b[0] in listed)]      # listed findings are not what the search is after
             if bad:
                 return shrink(ctx, {"signature": bad[0][0], "what": bad[0][1], "case": {"capacity": cap, "ops": list(ops), "stream": "search"}})
     return None
